@@ -185,6 +185,9 @@ def lex(s):
     return toks
 
 
+NAMES = ["my name", "Baker's yeast", "5'-AMP", "D:\\samples\\run7", 'the "good" batch', "two\nlines", "caf\u00e9 au lait", "50% w/w"]
+
+
 def observe_print(arg):
     """arg: {"items":[{"id", "expr", "T"}]} -> events for Trace_Print."""
     import periodictable as P
@@ -214,8 +217,9 @@ def observe_print(arg):
             ev["back"] = {"exc": type(e).__name__}
         ev["reprok"] = repr(f) == "formula('%s')" % s
         try:
-            n = P.formula(f, name="my name")
-            ev["nameok"] = (str(n) == "my name") and (repr(n) == "formula('my name')")
+            nm = NAMES[it["id"] % len(NAMES)] if isinstance(it["id"], int) else "my name"
+            n = P.formula(f, name=nm)
+            ev["nameok"] = (str(n) == nm) and (repr(n) == "formula('%s')" % nm)
         except Exception:
             ev["nameok"] = False
         out.append(ev)
